@@ -114,4 +114,7 @@ def _platforms():
 PLATFORMS = platforms(False)
 
 # session names registered for the generated session-level obligations (EOS / NX-OS)
-SESSION_NAMES = ["s1", "my-session", "tcl", "abcdefgh", "abcdefXY", "a.b", "cfg_1"]
+# (names whose 6th character — the cut point of the EOS prompt — is or follows a regex metacharacter included)
+SESSION_NAMES = ["s1", "my-session", "tcl", "abcdefgh", "abcdefXY", "a.b", "cfg_1", "abcde-x", "a-bc-def"]
+# quick tier: the session pattern of NX-OS does not depend on the name, that of EOS does
+SESSION_NAMES_QUICK = {"cisco_nxos": ["s1"], "arista_eos": ["s1", "abcde-x"]}
